@@ -34,7 +34,7 @@ EXTRA = gen.CTX_DEFAULT
 def plan(tier, seed):
     specs = [{"kind": "directed"}]
     n = 11 if tier == "quick" else 45
-    per = 2000 if tier == "quick" else 8000
+    per = 2000 if tier == "quick" else 30000
     for i in range(n):
         specs.append({"kind": ["std", "ext", "fuzz"][i % 3], "n": per})
     return specs
